@@ -64,7 +64,7 @@ CLAIMS = {
     'C12': dict(text='IndexKernel.tla states block lengths, starts, categories, calibration offsets, slicing and the estimate; TLC checks tiling / disjointness / cover / translation / estimate-inverse for every '
                      'list of distinct round counts in the bounded universe (exhaustive) and validates, one implementation test per specification state, every getter of the real kernels.',
                 ref='4 (C12)', note='Trusted: TLC/SANY, Json module, table driver. Universe: lists of <=3 (quick) / <=5 (thorough) distinct counts from 0..3 / 0..5, both heralded settings, repetitions <=2 / <=3, plus 40 random larger descriptions.',
-                technique='TLA+ spec IndexKernel.tla; TLC exhaustive model check + TLC validation of a table recorded from the real kernels'),
+                technique='TLA+ spec IndexKernel.tla; TLC exhaustive model check + TLC validation of a table recorded from the real kernels (advisory, beyond the bound: inductive invariant of KernelInductive.tla discharged by Apalache, with TLC trace validation of the recorded kernels against that action system)'),
     'C13': dict(text='The same IndexKernel.tla arrays are compared by TLC with BOTH the real experiment kernel getters and the tagged per-ancilla acquisition indices of the real multi-round circuit, '
                      'for every round list in the bounded universe and code distances 2..3 (quick) / 2..4 (thorough); the documented 0-round difference is written into the clause.',
                 ref='4 (C13)', note='Trusted: TLC/SANY, Json module, table driver; circuits are built by the real constructor (apply_modifiers + flatten per block).',
